@@ -340,6 +340,11 @@ pub fn layer2_script_case(seed: u64, i: u64) -> Case {
     salt.copy_from_slice(&bytes[..32]);
     b.copy_from_slice(&bytes[32..64]);
     a.copy_from_slice(&bytes[64..]);
+    // seven of eight scripts keep their private keys below 2^255 (no probe needed, see common::taken_as_is)
+    if i % 8 != 0 {
+        b[31] &= 0x7F;
+        a[31] &= 0x7F;
+    }
     let c = [("A", "A"), ("alice", "password123"), ("0123456789abcdef", "fedcba9876543210"), ("Z Z", "~")][(i % 4) as usize];
     mk("counter-mode-scripts", c, c, salt, b, a)
 }
@@ -537,8 +542,8 @@ fn login_sequences(report: &Report, o: Oracle, cl: &Classes, tier: Tier, seed: u
                         typed_user: user.to_string(),
                         typed_pass: pass.to_string(),
                         salt: [*salt; 32],
-                        b: refmodel::ctr_array::<32>(seed, &format!("{tag}-b")),
-                        a: refmodel::ctr_array::<32>(seed, &format!("{tag}-a")),
+                        b: { let mut k = refmodel::ctr_array::<32>(seed, &format!("{tag}-b")); k[31] &= 0x7F; k },
+                        a: { let mut k = refmodel::ctr_array::<32>(seed, &format!("{tag}-a")); k[31] &= 0x7F; k },
                     };
                     let before = report.violation_count();
                     run_case(report, o, cl, &case, false, false);
